@@ -8,6 +8,7 @@ TLC adjudicates the real results (AlgebraTrace.tla).
 from __future__ import annotations
 
 import random
+import re
 
 from .. import assign_common as ac
 from .. import codec, core, pyz
@@ -197,33 +198,183 @@ def judge_ctx(check: core.Check, cases: list[dict], label: str) -> None:
         check.sample({"source": label, **o})
 
 
+# sensitivity self-tests of the context slice: (cfg, invariant TLC must report as violated, what it shows)
+CTX_SENSITIVITY = [
+    ("SubstContexts.skipgeneric.cfg", "InvReplacesAll", "an ImplSubst that skips type[Generic[..]] (seed C14-3's family) breaks 'replaces every occurrence'"),
+    ("SubstContexts.strict_replaces.cfg", "InvReplacesAllStrict", "UnpackedValue is not substituted (deviation is real on the model)"),
+    ("SubstContexts.strict_structure.cfg", "InvStructureStrict", "the structural law sees the same deviation"),
+    ("SubstContexts.strict_identity.cfg", "InvIdentityStrict", "a literal of a callable object is re-hashed by substitution"),
+    ("SubstContexts.strict_walk.cfg", "InvWalkStrict", "walk_values misses UnpackedValue.value / TypedDict extra_keys"),
+    ("SubstContexts.strict_paireqhash.cfg", "InvPairEqHashStrict", "Signature == ignores the parameter order, its hash does not"),
+    ("SubstContexts.strict_pairdisc.cfg", "InvPairDiscriminatesStrict", "the same deviation makes == identify two different callable types"),
+]
+
+
+def _corrupted_observation_selftest() -> str:
+    """Every clause of the trace specifications must fire on an observation that was corrupted accordingly (and a dev:
+    verdict must turn into a viol: when the real result is not the one the deviating mechanism predicts)."""
+    import copy
+
+    T, S = {"k": "typevar", "n": "T"}, {"k": "typevar", "n": "S"}
+    lst = lambda x: {"k": "generic", "c": "list", "args": [x]}  # noqa: E731
+    none = {"k": "known", "o": {"c": "NoneType", "v": "None", "items": []}}
+    bs = [_INT, T]
+    base_open = observe_ctx((0, {"kind": "ctx", "a": lst(T), "m": "T->int", "bs": bs}))
+    base_closed = observe_ctx((0, {"kind": "ctx", "a": lst(_INT), "m": "T->int", "bs": bs}))
+    base_unp = observe_ctx((0, {"kind": "ctx", "a": lst({"k": "unpacked", "t": T}), "m": "T->int", "bs": bs}))
+    pair_same = observe_ctx((0, {"kind": "pair", "a": lst(T), "b": lst(T)}))
+    pair_diff = observe_ctx((0, {"kind": "pair", "a": lst(T), "b": lst(S)}))
+    for o in (base_open, base_closed, base_unp, pair_same, pair_diff):
+        if o["kind"] == "raised":
+            raise core.MachineryError(f"self-test observation raised: {o}")
+    tests = []
+
+    def add(base, expect, **changes):
+        o = copy.deepcopy(base)
+        for k, v in changes.items():
+            if k == "comm0eq":
+                o["comm"][0]["eq"] = v
+            else:
+                o[k] = v
+        o["tid"] = len(tests)
+        tests.append((o, expect))
+
+    add(base_open, None)
+    add(base_open, "viol:ReplacesEveryOccurrence", s_a=lst(T))
+    add(base_open, "viol:SubstStructure", s_a=lst({"k": "typed", "c": "str"}))
+    add(base_open, "viol:SubstStructure", s_a={"k": "seq", "c": "list", "ms": [{"many": False, "t": _INT}]})
+    add(base_closed, "viol:SubstIdentityOnClosed", eq_id=False)
+    add(base_closed, "viol:SubstIdentityOnClosed", hash_id=False)
+    add(base_open, "viol:SubstCommutesWithUnite", comm0eq=False)
+    add(base_open, "viol:EqualImpliesHashEqual", hash_ss=False)
+    add(base_open, "viol:EqualImpliesHashEqual", hash_fresh=False)
+    add(base_open, "viol:SeparatelyBuiltValuesEqual", eq_fresh=False)
+    add(base_open, "viol:ExtractTypevarsAgrees", tv_a=[])
+    add(base_open, "viol:ExtractTypevarsAgrees", tv_s=["T"])
+    add(base_unp, "dev:unpacked-value-not-substituted")
+    add(base_unp, "viol:ReplacesEveryOccurrence", s_a=lst({"k": "unpacked", "t": {"k": "union", "ms": [T, none]}}))  # not the predicted result
+    add(pair_same, None)
+    add(pair_same, "viol:EqualImpliesHashEqual", hash_ab=False)
+    add(pair_same, "viol:EqDiscriminates", eq_ab=False, eq_ba=False)
+    add(pair_diff, "viol:EqDiscriminates", eq_ab=True, eq_ba=True, hash_ab=True)
+    add(pair_diff, "viol:EqSymmetric", eq_ba=True)
+    verdicts, _ = adjudicate_ctx([o for o, _ in tests])
+    for o, expect in tests:
+        got = verdicts.get(o["tid"], [])
+        bad = [v for v in got if not v.startswith("drift:")]
+        if expect is None and bad:
+            raise core.MachineryError(f"self-test: a faithful observation was judged {bad}")
+        if expect is not None and expect not in got:
+            raise core.MachineryError(f"self-test: corrupted observation did not yield {expect} (got {got}): {o}")
+        if expect is not None and expect.startswith("viol:") and o.get("s_a") != base_unp["s_a"] and "dev:unpacked-value-not-substituted" in got:
+            raise core.MachineryError(f"self-test: an unpredicted result was still classified as a known deviation: {got}")
+    # AlgebraTrace.tla: the unhashable-literal deviation is only granted for the predicted results
+    lit = {"k": "known", "o": {"c": "list", "v": "", "items": [{"c": "int", "v": "1", "items": []}]}}
+    good = observe((0, {"a": lit, "b": _INT, "c": _INT, "m": "T->int"}))
+    if good["kind"] == "raised":
+        raise core.MachineryError(f"self-test observation raised: {good}")
+    bad_o = copy.deepcopy(good)
+    bad_o["tid"] = 1
+    bad_o["eq_idem"] = False
+    bad_o["u_aa"] = _INT  # not what the identity hash predicts (a two-member union)
+    v2, _ = core.adjudicate("AlgebraTrace", "AlgebraTrace.cfg", [good, bad_o], batch=8000)
+    if "dev:unhashable-literal-not-merged" not in v2.get(0, []) or "viol:Idempotent" not in v2.get(1, []):
+        raise core.MachineryError(f"self-test: AlgebraTrace dev/viol classification is off: {v2}")
+    return f"{len(tests) + 2} corrupted / faithful observations judged as expected"
+
+
 def run(check: core.Check) -> None:
+    from concurrent.futures import ThreadPoolExecutor
+
     quick = check.tier == "quick"
     rnd = random.Random(check.seed)
     check.assumptions += [
-        "49 terms (literals incl. unhashable ones, typed, generic, sequence, subclass, newtype, typevars, unions incl. "
+        "triples: 49 terms (literals incl. unhashable ones, typed, generic, sequence, subclass, newtype, typevars, unions incl. "
         "permuted and nested ones, TypedDict values incl. read-only / non-required generic entries, dict displays with "
-        "optional and unpacked entries) x 6 type-variable maps; callable / annotated values are not in the space yet",
+        "optional and unpacked entries) x 6 type-variable maps",
+        "contexts (SubstContexts.tla): 50 one-hole frames = every sub-value position of GenericValue (list / dict key / dict value), "
+        "SequenceValue (fixed, unpacked member, list display), DictIncompleteValue (key, value, optional, is_many), TypedDictValue "
+        "(required / not required / read-only entry, extra_keys, extra_keys_readonly), SubclassValue (plain / exactly), "
+        "MultiValuedValue (left / right member), AnnotatedValue (value, plain metadata, TypeGuard / TypeIs / ParameterTypeGuard / "
+        "NoReturnGuard / HasAttr / HasAttrGuard extensions, CustomCheck), CallableValue (positional-only / with default / "
+        "positional-or-keyword / *args / keyword-only / **kwargs annotation, return value, asynq, two named parameters in both "
+        "orders), UnpackedValue, AsyncTaskIncompleteValue; nested to depth "
+        + ("2" if quick else "3 (depth 3: 17 outer x 50 x 5 inner frames)")
+        + "; fillers T, S, int and a literal of a function; 8 maps incl. a chain (T -> list[S], S -> int) and a swap (T -> S, S -> T)"
+        + ("; at depth 2 each filler gets the 3-4 maps that touch it differently" if quick else ""),
+        "not in the space: ParamSpec parameters (Signature.substitute_typevars splices the mapped signature), TypeVarValue bounds / "
+        "constraints that mention another type variable, UnboundMethodValue, TypeAliasValue, KnownValueWithTypeVars as an input, "
+        "overloaded / bound-method signatures",
     ]
-    res = core.require_ok(core.run_tlc("Algebra", "Algebra.quick.cfg", timeout=3400), "Algebra exhaustive")
-    check.add_tlc("exhaustive:Algebra.quick.cfg", res)
-    for cfg, inv in (("Algebra.strict1.cfg", "InvEqHashStrict"), ("Algebra.strict2.cfg", "InvIdemStrict")):
-        r = core.run_tlc("Algebra", cfg, timeout=900)
-        if r.violated != inv:
+    ctx_cfg = "SubstContexts.quick.cfg" if quick else "SubstContexts.thorough.cfg"
+    jobs = {
+        # the eleven law invariants and the emission of every triple in ONE pass over the 708 345 states
+        "alg": ("AlgebraEmit", "Algebra.quickemit.cfg", 3400, core.NCPU),
+        "strict1": ("Algebra", "Algebra.strict1.cfg", 900, 4),
+        "strict2": ("Algebra", "Algebra.strict2.cfg", 900, 4),
+        "ctx": ("SubstContextsEmit", ctx_cfg, 3000, core.NCPU),
+        **{cfg: ("SubstContexts", cfg, 600, 2) for cfg, _, _ in CTX_SENSITIVITY},
+    }
+    # the TLC runs are independent of each other: run them side by side
+    with ThreadPoolExecutor(len(jobs) + 1) as ex:
+        futs = {name: ex.submit(core.run_tlc, mod, cfg, timeout=to, workers=w) for name, (mod, cfg, to, w) in jobs.items()}
+        selftest = ex.submit(_corrupted_observation_selftest)
+        results = {name: f.result() for name, f in futs.items()}
+        selftest_text = selftest.result()
+    res = core.require_ok(results["alg"], "Algebra exhaustive + emit")
+    check.add_tlc("exhaustive+emit:Algebra.quickemit.cfg", res)
+    for name, inv in (("strict1", "InvEqHashStrict"), ("strict2", "InvIdemStrict")):
+        if results[name].violated != inv:
             raise core.MachineryError(f"sensitivity self-test failed: {inv} unexpectedly holds on the model")
-    check.cov["sensitivity"] = "InvEqHashStrict and InvIdemStrict are violated on the model (the unhashable-literal deviation is real)"
-    em = core.require_ok(core.run_tlc("AlgebraEmit", "Algebra.emit.cfg", timeout=3000), "Algebra emit")
-    check.add_tlc("emit", em)
-    triples = core.emitted_json(em)
+    for cfg, inv, what in CTX_SENSITIVITY:
+        r = results[cfg]
+        if r.violated != inv:
+            raise core.MachineryError(f"sensitivity self-test failed: {cfg} should violate {inv} ({what}); TLC said {r.violated or r.error}")
+        if cfg == "SubstContexts.skipgeneric.cfg" and not re.search(r'cx = <<[^>]*"(type|exactly)"', r.stdout):
+            raise core.MachineryError("sensitivity self-test: the skip-type-of-generic counterexample is not a type[...] context")
+    check.cov["sensitivity"] = (
+        "InvEqHashStrict and InvIdemStrict are violated on the model (the unhashable-literal deviation is real); "
+        + "; ".join(f"{cfg}: TLC rejects {inv} ({what})" for cfg, inv, what in CTX_SENSITIVITY)
+        + "; " + selftest_text
+    )
+    triples = core.emitted_json(res)
+    if len(triples) < 700000:
+        raise core.MachineryError(f"Algebra: only {len(triples)} triples were emitted")
     limit = 40000 if quick else 10**7
     exhaustive = len(triples) <= limit
     if not exhaustive:
         triples = rnd.sample(triples, limit)
-    check.cov["exhaustive"] = exhaustive
-    check.cov["rule"] = "triples (a, b, c) x map m enumerated by TLC; non-trivial = neither a nor b is a plain class / Any"
     judge(check, triples, "tlc-exhaustive")
+    # ---- context slice: model-checked and emitted by one TLC run, every emitted case replayed
+    cx = core.require_ok(results["ctx"], "SubstContexts exhaustive + emit")
+    check.add_tlc(f"exhaustive+emit:{ctx_cfg}", cx)
+    cases = core.emitted_json(cx)
+    n_ctx = sum(1 for c in cases if c["kind"] == "ctx")
+    if n_ctx < 10000 or len(cases) - n_ctx < 3000:
+        raise core.MachineryError(f"context slice: only {n_ctx} context cases / {len(cases) - n_ctx} pairs were emitted")
+    by_depth: dict[str, int] = {}
+    frames_seen = set()
+    for c in cases:
+        if c["kind"] == "ctx":
+            by_depth[str(len(c["fs"]))] = by_depth.get(str(len(c["fs"])), 0) + 1
+            frames_seen.update(c["fs"])
+    check.cov["contexts"] = {
+        "cfg": ctx_cfg, "context_cases": n_ctx, "by_depth": by_depth, "frames": len(frames_seen),
+        "equality_pairs": len(cases) - n_ctx, "replayed": "all",
+    }
+    check.cov["exhaustive"] = exhaustive
+    check.cov["rule"] = (
+        "triples (a, b, c) x map m enumerated by TLC (" + ("all" if exhaustive else f"seeded sample of {limit}") + " replayed); "
+        "non-trivial = neither a nor b is a plain class / Any.  Contexts: every (context of <= "
+        + ("2" if quick else "3") + " frames, filler, map) and every equality pair enumerated by TLC is replayed; non-trivial = "
+        "distinct (frames, variable filler, map) / (frames, fillers) combinations"
+    )
+    judge_ctx(check, cases, "tlc-contexts")
 
 
 def replay(check: core.Check, witness: dict) -> None:
     c = witness["case"]
+    if c.get("kind") in ("ctx", "pair"):
+        judge_ctx(check, [{"fs": [], "h": "", "fa": [], "fb": [], "ha": "", "hb": "", **c}], "replay")
+        return
     judge(check, [{k: c[k] for k in ("a", "b", "c", "m")}], "replay")
